@@ -16,6 +16,7 @@ pub mod c11;
 pub mod c12;
 pub mod c13;
 pub mod c15;
+pub mod c16;
 pub mod c17;
 pub mod refcmp;
 
@@ -35,6 +36,7 @@ pub fn spaces(prop: &str, tier: Tier) -> Vec<Box<dyn Space>> {
         "C12" => c12::spaces(tier),
         "C13" => c13::spaces(tier),
         "C15" => c15::spaces(tier),
+        "C16" => c16::spaces(tier),
         "C17" => c17::spaces(tier),
         _ => Vec::new(),
     }
@@ -56,6 +58,7 @@ pub fn meta(prop: &str, tier: Tier) -> PropMeta {
         "C12" => c12::meta(tier),
         "C13" => c13::meta(tier),
         "C15" => c15::meta(tier),
+        "C16" => c16::meta(tier),
         "C17" => c17::meta(tier),
         _ => PropMeta {
             id: "?",
